@@ -1,3 +1,4 @@
+import NasimModel.Generated.ActionsOk
 import NasimModel.Model.Env
 /-!
 # C11 — action spaces enumerate exactly the scenario's actions
